@@ -481,12 +481,13 @@ bool IP::matches_response(const uint8_t* ptr, uint32_t total_sz) const {
         const uint8_t* pkt_ptr = ptr + sizeof(ip_header);
         uint32_t pkt_sz = total_sz - sizeof(ip_header);
         // It's an ICMP dest unreachable
-        if (pkt_sz > 4 && pkt_ptr[0] == 3) {
-            pkt_ptr += 4;
-            pkt_sz -= 4;
+        if (pkt_sz > 8 && pkt_ptr[0] == 3) {
+            // Skip the 8 byte ICMP header
+            pkt_ptr += 8;
+            pkt_sz -= 8;
             // If our IP header is in the ICMP payload, then it's the same packet.
             // This keeps in mind checksum and IP identifier, so I guess it's enough.
-            if (pkt_sz >= sizeof(header_) && memcmp(&header_, pkt_ptr, sizeof(ip_header))) {
+            if (pkt_sz >= sizeof(header_) && memcmp(&header_, pkt_ptr, sizeof(ip_header)) == 0) {
                 return true;
             }
         }
